@@ -106,12 +106,17 @@ def run(chk, replay=None):
         qs += [(b, a) for a, b in qs[:100]]
         return n, es, qs, kind
     graphs += [big(k) for k in (['long-chain', 'broom', 'big-tree'] if chk.tier == 'quick' else ['long-chain', 'broom', 'big-tree'] * 5)]
-    glines = ['G %d E:%s Q:%s' % (n, pairs(es), pairs(qs)) for n, es, qs, _ in graphs]
+    # in some graphs a few variables leave the model once the equivalences are made (removed from their component, or moved into
+    # another model): a chain of equivalences that passes through them still links its ends
+    glines = []
+    for n, es, qs, kind in graphs:
+        out = [i for i in range(n) if rng.random() < 0.25] if (kind not in ('long-chain', 'broom', 'big-tree') and rng.random() < 0.4) else []
+        glines.append('G %d E:%s Q:%s%s' % (n, pairs(es), pairs(qs), (' O:' + ','.join(map(str, out))) if out else ''))
     _, gi, _ = run_lines(hx, [], glines)
     mlines = []
     for l, x in zip(glines, gi):
         m = re.search(r' A:(\S*)', x)
-        mlines.append(l.replace(' Q:', ' A:%s Q:' % (m.group(1) if m else '')))
+        mlines.append(re.sub(r' O:\S*', '', l).replace(' Q:', ' A:%s Q:' % (m.group(1) if m else '')))
     _, gm, _ = run_lines(drv, ['equiv'], mlines)
     gdis, orafail = [], []
     kinds = {}
